@@ -1,9 +1,10 @@
 import Carquet.Proofs.WriterPages
+import Carquet.Impl.WriterHistory
 /-
 What the pages of a written file CONTAIN: the writer half of the round trip (C01, C05
 "recovers exactly the table that was written").
 
-`tableOf cols ops` is the table a write history denotes, defined without any reference to the
+`tableOf cols ops` (Impl/WriterHistory.lean) is the table a write history denotes, defined without any reference to the
 writer's machinery (pages, buffers, offsets): per row group, per column, the rows, the
 definition / repetition levels and the dense values of the accepted batches, in order.
 `writer_refines_table`: when every call of the history returned OK, the page records of the
@@ -13,56 +14,15 @@ the finalisation of the page-builder content it carries (`PagesOf`).
 namespace Carquet.Proofs.WriterTable
 open Carquet.Impl.Writer Carquet.Proofs.Writer Carquet.Proofs.WriterLayout Carquet.Proofs.WriterPages
 
-/-- content of a column (of a row group, of a page, of a batch) -/
-structure ColData where
-  rows : Nat := 0
-  defs : List Nat := []
-  reps : List Nat := []
-  vals : List Val := []
-  deriving DecidableEq, Repr
-
-def ColData.append (a b : ColData) : ColData :=
-  ⟨a.rows + b.rows, a.defs ++ b.defs, a.reps ++ b.reps, a.vals ++ b.vals⟩
-
 theorem ColData.append_assoc (a b c : ColData) : (a.append b).append c = a.append (b.append c) := by
   simp [ColData.append, Nat.add_assoc, List.append_assoc]
 
 theorem ColData.append_empty (a : ColData) : a.append {} = a := by
   cases a; simp [ColData.append]
 
-/-- what one accepted `write_batch` call contributes to its column (`add_values`) -/
-def batchData (c : Col) (b : Batch) : ColData :=
-  { rows := b.nrows,
-    defs := if c.maxDef > 0 then (match b.defs with
-                                  | some ds => ds
-                                  | none => List.replicate b.nrows c.maxDef) else [],
-    reps := if c.maxRep > 0 then List.replicate b.nrows 0 else [],
-    vals := b.vals }
-
 /-- the caller's arrays hold what the counts say -/
 def BatchWF (b : Batch) : Prop :=
   (b.nrows = 0 → b.vals = []) ∧ (∀ ds, b.defs = some ds → ds.length = b.nrows)
-
-/-- abstract writer state: finished row groups and the open one -/
-structure A where
-  done : List (List ColData) := []
-  cur : Option (List ColData) := none
-  deriving Repr
-
-def aStep (cols : List Col) (a : A) : Op → A
-  | .batch b =>
-    match cols[b.col]? with
-    | none => a
-    | some c =>
-      { a with cur := some (((a.cur.getD (cols.map (fun _ => {}))).modify b.col (·.append (batchData c b)))) }
-  | .newRowGroup =>
-    match a.cur with
-    | none => a
-    | some cur => { done := a.done ++ [cur], cur := none }
-
-/-- the table a history denotes (close finishes the open row group) -/
-def tableOf (cols : List Col) (ops : List Op) : List (List ColData) :=
-  (aStep cols (ops.foldl (aStep cols) {}) .newRowGroup).done
 
 /-! ### abstraction of concrete states -/
 
